@@ -13,8 +13,10 @@
        C11_value_roundtrip      a value of a heap whose tables satisfy the C07 invariant ([tables_wf], kept by
                                 every instruction: the C07_vm theorems), converted with try_from and inserted into any other
                                 heap, has the same owned form and the same canonical tree (Vm.to_tree) there;
-       C11_owned_fuel           try_from answers [o] only with fuel > odepth o, and then with every such fuel
-                                (the fuel of the model is not observable);
+       C11_owned_fuel           try_from answers [o] only with fuel > odepth o, and then with every such fuel;
+       C11_owned_fuel_stable    whatever try_from answers with some fuel (a value, Err(v), a dangling address, a
+                                key test that does not answer) it answers with every larger fuel: the fuel of
+                                the model is not observable except as "not enough";
        C11_insert_keeps_tables  insert_value keeps the C07 table invariant of the heap and never reaches the
                                 impossible branch [IUb];
        C11_nan_key_row_lost     why NaN keys are outside the class: the row is stored and never read back.
@@ -92,6 +94,12 @@ Proof.
 Qed.
 Print Assumptions C11_owned_fuel.
 
+Theorem C11_owned_fuel_stable :
+  forall (F : fops) (h : heap) (v : value) (f1 f2 : nat),
+    f1 <= f2 -> owned_of F f1 h v <> CvFuel -> owned_of F f2 h v = owned_of F f1 h v.
+Proof. intros F h v f1 f2. exact (OwnedProofs.owned_of_stable F h v f1 f2). Qed.
+Print Assumptions C11_owned_fuel_stable.
+
 Theorem C11_insert_keeps_tables :
   forall (F : fops) (o : owned) (h : heap),
     owned_ok F o = true ->
@@ -145,6 +153,15 @@ Proof.
     intros a t H. unfold hget in H. destruct (N.to_nat a); discriminate.
   - vm_compute in E. inversion E; subst. vm_compute. split; reflexivity.
 Qed.
+
+(* try_from on a table that holds a function: Err(the function value), with any fuel from 2 on; out of fuel
+   with less *)
+Example C11_err_nonvacuous :
+  let h := [Vm.OTable (mkTable [(VInt 1%Z, VInt 2%Z); (VInt 3%Z, VObj 1%N)] [VInt 1%Z; VInt 3%Z]); Vm.OFun 7%N 0%N] in
+  owned_of VmFloat.flocq_ops 2 h (VObj 0%N) = CvErr (VObj 1%N) /\
+  owned_of VmFloat.flocq_ops 9 h (VObj 0%N) = CvErr (VObj 1%N) /\
+  owned_of VmFloat.flocq_ops 1 h (VObj 0%N) = CvFuel.
+Proof. vm_compute. repeat split. Qed.
 
 (* the NaN row on the binary64 instance *)
 Example C11_nan_nonvacuous :
